@@ -130,6 +130,55 @@ Theorem C08_module_imports_cover : forall imps generated n l x,
   In n generated -> lookup n imps = Some l -> In x l -> In x (module_imports_of imps generated).
 Proof. exact module_imports_cover. Qed.
 
+(* acyclicity of the base graph is not an assumption for valid documents: the boolean NoFragmentCycles check on the
+   document (no fragment reaches itself through spreads at any depth; K2-tied to graphql-core's rule) implies it -
+   every edge of the base graph is a non-empty spread path *)
+Theorem C08_no_cycles_acyclic : forall fuel sch frags g,
+  no_fragment_cycles frags = true -> top_graph fuel sch frags = Some g -> acyclic_g g.
+Proof. exact no_cycles_acyclic. Qed.
+Print Assumptions C08_no_cycles_acyclic.
+
+(* C08_mixin_instance for a valid document: both hypotheses about the graph discharged *)
+Theorem C08_mixin_instance_valid_document : forall fuel0 fuel sch frags g snake cn tn ss extra s cs s',
+  no_fragment_cycles frags = true -> top_graph fuel0 sch frags = Some g ->
+  ptd fuel sch frags g snake cn tn ss extra s = Some (cs, s') -> mem cn (st_public s) = false ->
+  exists c rest, cs = c :: rest /\ c_name c = cn /\ c_type c = tn /\
+    forall fn fd, In (SSpread fn false) ss -> find_frag fn frags = Some fd ->
+      is_union sch (fr_on fd) = false -> fr_on fd = tn -> existsb is_inline (fr_sel fd) = false ->
+      In fn (c_frags c) /\
+      exists b, In b (c_bfrags c) /\ In (pascal_s b) (c_bases c) /\ reachable (rgraph g) b fn.
+Proof.
+  intros fuel0 fuel sch frags g snake cn tn ss extra s cs s' Hn Hg. apply mixin_instance_lemma.
+  eapply no_cycles_acyclic; eassumption.
+Qed.
+Print Assumptions C08_mixin_instance_valid_document.
+
+(* the mixins recorded while generating the classes of a fragment are defined fragments, so the dependency table
+   generate_package builds is closed in the fragment names: the hypothesis of C08_fragment_present is a theorem
+   for it (invariant carried through ptd and its two loops) *)
+Theorem C08_frag_table_closed : forall fuel sch frags g snake rfrags,
+  all_some (map (gen_frag fuel sch frags g snake) frags) = Some rfrags ->
+  let tbl := combine (map fr_name frags) (map (fun r => sort_uniq (st_mix (snd r))) rfrags) in
+  forall n d, In d (deps_of tbl n) -> In d (map fr_name frags).
+Proof. exact frag_table_closed. Qed.
+Print Assumptions C08_frag_table_closed.
+
+Theorem C08_fragment_present_package : forall fuel sch frags g snake rfrags unp mix,
+  all_some (map (gen_frag fuel sch frags g snake) frags) = Some rfrags ->
+  let names := map fr_name frags in
+  let tbl := combine names (map (fun r => sort_uniq (st_mix (snd r))) rfrags) in
+  let start := start_names names (exclude_of unp mix) in
+  exists names' done', work (1 + List.length names) tbl start start [] = Some (names', done') /\
+  (forall f, In f names -> In f mix -> In f names') /\
+  (forall f, In f names -> ~ In f unp -> In f names') /\
+  (forall n, In n names' -> forall d, In d (deps_of tbl n) -> In d names') /\
+  (forall x, In x names' <-> In x done').
+Proof.
+  intros fuel sch frags g snake rfrags unp mix H names tbl. apply fragment_present_total.
+  exact (frag_table_closed _ _ _ _ _ _ H).
+Qed.
+Print Assumptions C08_fragment_present_package.
+
 (* the listed fragment bases never contain a fragment that another fragment of the resolved set - in
    particular another listed base, earlier or later - inherits: `class X(A, B)` with B a subclass of A
    (the pattern Python's C3 linearisation rejects, former finding C08-MRO) is never emitted.
@@ -280,3 +329,11 @@ Example C08_case_styles_example :
   | None => False
   end.
 Proof. vm_compute. repeat split. Qed.
+
+Example C08_no_cycles_example :
+  no_fragment_cycles frags_mro = true /\
+  no_fragment_cycles [ {| fr_name := "A"; fr_on := "Dog"; fr_mixins := [];
+                          fr_sel := [SField None "mate" [] [SSpread "B" true]] |};
+                       {| fr_name := "B"; fr_on := "Dog"; fr_mixins := []; fr_sel := [SInline "Dog" false [SSpread "A" false]] |} ] = false.
+Proof. vm_compute. split; reflexivity. Qed.
+
